@@ -154,9 +154,21 @@ func c16Guard(timeout time.Duration, f func() string) c16Res {
 		r.alloc = c16HeapAllocs() - a0
 		c16SlowCalls++
 		return r
-	case <-time.After(20*timeout + 60*time.Second):
+	case <-time.After(c16ConfirmWindow(timeout)):
+		c16ConfirmedHangs++
 		return c16Res{out: "hang", hung: true}
 	}
+}
+
+// the confirmation window is paid in full for the first stalled calls only: once hangs have been confirmed the run fails
+// anyway, and later stalls are reported after a short extra wait (the abandoned goroutines may be spinning)
+var c16ConfirmedHangs int
+
+func c16ConfirmWindow(timeout time.Duration) time.Duration {
+	if c16ConfirmedHangs >= 2 {
+		return timeout
+	}
+	return 20*timeout + 60*time.Second
 }
 
 // calls that exceeded their nominal bound but returned within the confirmation window (reported in the evidence)
@@ -1478,7 +1490,13 @@ func c16SQLTokens() []string {
 func c16SearchSQL(c *c16Run, rng *hx.Rng, scale int) {
 	r := c.r
 	toks := c16SQLTokens()
+	sqlHangs := 0
 	try := func(s string, label string) {
+		if sqlHangs >= 3 {
+			// the parser does not terminate on several inputs (reported): every further such input leaves a spinning goroutine behind
+			r.Count("search-only.sql.skipped-after-confirmed-hangs")
+			return
+		}
 		res := c16Guard(10*time.Second, func() string {
 			_, err := sql.ParseSQLString(s)
 			if err != nil {
@@ -1491,6 +1509,7 @@ func c16SearchSQL(c *c16Run, rng *hx.Rng, scale int) {
 		r.OracleChecks++
 		r.Eval(c16Key("sql", []byte(s)), len(s) > 0)
 		if res.hung {
+			sqlHangs++
 			r.Fail("C16:sql.ParseSQLString:hang", "ParseSQLString did not return within 10s + confirmation window (260s)", map[string]string{"input_hex": hx.Hex([]byte(s))})
 		}
 		if res.panicked {
